@@ -31,6 +31,49 @@ CHECKS: dict[str, tuple[str, str, str, str, str]] = {
         "raises; repeated calls of a dunder the plain operator also calls are not 'extra'.",
         "5/C04",
     ),
+    "C05": (
+        "model_checking",
+        "explicit-state BFS over real tracer callbacks + exhaustive call sequences through the real executor",
+        "Leg A: BFS over all sequences (depth 3 quick / 4 thorough) of 16 events on the real ExecutionTracer "
+        "(6 benign, 10 whose operand operators or context bodies raise and are caught like a SUT try/except); "
+        "on every transition the enabled flag must be unchanged and a following line / predicate event must be "
+        "recorded. Leg B: every sequence of <= 2 (quick) / 3 (thorough) calls from a 12-call alphabet of "
+        "functions that raise inside try/except and then run further lines and branches, through the real "
+        "import hook and TestCaseExecutor under 4 metric subsets; reported lines must equal sys.settrace "
+        "ground truth on the uninstrumented source, the post-handler predicate must be recorded, and the "
+        "tracer's enabled state after each statement equals the state before.",
+        "Lines of the operand class's own dunder bodies are not compared (they run inside the tracer's "
+        "untraced evaluation while it raises, i.e. during, not after, the exception). Single thread.",
+        "5/C05",
+    ),
+    "C15": (
+        "model_checking",
+        "stateless deviation-bounded choice-tree exploration of the real TestFactory/mutation/crossover",
+        "Every random draw of pynguin is an explorer-owned choice (ChoiceRNG seam). For each corpus module and "
+        "chromosome_length in {3, 40}: scripts = factory insertions followed by every operation sequence of "
+        "length <= 2 (quick) / 3 (thorough) over a 14-operation alphabet (insert, mutate, the three mutation "
+        "sub-operators, delete, value/call/field/type changes, chop, unused-variable removal); all executions "
+        "with <= d non-default answers (d by script length) are run, plus every splice of every ordered pair "
+        "of enumerated test cases at every position pair. After every operation an independent ast-based "
+        "oracle checks valid Python, def-before-use, unique names, registry consistency, fresh names, clone "
+        "independence and the configured maximum length.",
+        "RNG answers range over the finite menus in mc/rng.py; a per-script execution cap is reported "
+        "(exhaustive=false when hit). Local-search operators are not driven (they need an executor).",
+        "5/C15",
+    ),
+    "C29": (
+        "model_checking",
+        "explicit-state BFS over the real FilesystemIsolation on a fresh sandbox tree per history",
+        "Every history of <= 2 (quick) / <= 3 (thorough) operations out of 679 instances (37 open/os.open/"
+        "pathlib/os/shutil kinds x 7 paths over a tree with a file, a non-empty dir, an empty dir and a "
+        "symlink) is executed inside one real FilesystemIsolation block, plus the [op, chdir, op] leg; after "
+        "the block the sandbox, os.environ, tempfile.tempdir and all patched attributes are compared with the "
+        "pre-state. Reachable (tree, recorded-created) states are enumerated completely within the bound.",
+        "Single thread, relative paths in a /dev/shm sandbox; only APIs in the alphabet (no os.truncate, "
+        "os.symlink, subprocesses). After an already-violating prefix, further damage is reported under "
+        "collapsed after-violation fingerprints.",
+        "5/C29",
+    ),
     "C34": (
         "model_checking",
         "explicit-state BFS over the real OrderedSet against a list reference model",
